@@ -165,19 +165,21 @@ def run_streams(ctx, spec):
         keys = gate(c) if callable(gate) else gate
         if keys is None:
             continue
-        pa, pb = C.project(a, keys), C.project(b, keys)
+        canon = spec.get("canon")
+        proj = (lambda raw, keys=keys: canon(raw, keys)) if canon else (lambda raw, keys=keys: C.project(raw, keys))
+        pa, pb = proj(a), proj(b)
         if pa != pb:
             ndis += 1
             if ndis <= 3:
-                def still(l, keys=keys):
+                def still(l, proj=proj):
                     x, y = run_pair(l)
-                    return y != "unsupported" and C.project(x, keys) != C.project(y, keys)
+                    return y != "unsupported" and proj(x) != proj(y)
                 small = shrink(c, still)
                 x, y = run_pair(small)
                 f = describe(small, x, y)
                 f.update({"kind": "corr", "group": c.group, "gated_on": sorted(keys),
                           "broken": "correspondence between lean/Hls/Model and /repo on stream '%s'" % c.group,
-                          "what": "model and implementation disagree on %s (%s): impl=%s model=%s" % (c.op, c.group, C.project(x, keys)[:120], C.project(y, keys)[:120])})
+                          "what": "model and implementation disagree on %s (%s): impl=%s model=%s" % (c.op, c.group, proj(x)[:120], proj(y)[:120])})
                 failures.append(f)
     if ndis:
         C.log("%d disagreements between model and implementation" % ndis)
@@ -640,4 +642,262 @@ PROPS["C13"] = {
     "exhaustive": False,
     "explanation": "theorems: validateVariants_iff, validateSessionData_iff, build_ok_iff, parseMaster_consistent, assembleMaster_ok_iff, associatedWith_iff, isAssociated_iff_partial (+ isAssociated_counterexample for K5); oracle: acceptance of every rendered configuration is compared with an independent Python statement of the rule, every accepted value is re-checked for consistency and its rendition lookup compared with the references",
     "assumptions": ["the builder path of the same rule (MasterPlaylistBuilder::build) is covered by the model theorem build_ok_iff; its implementation side is exercised by C20's builder scripts"],
+}
+
+
+# ------------------------------------------------------------------------------------------
+# generic observation parser
+
+class Node:
+    __slots__ = ("kind", "tag", "items")
+
+    def __init__(self, kind, tag, items):
+        self.kind, self.tag, self.items = kind, tag, items
+
+    def __getitem__(self, i):
+        return self.items[i]
+
+    def __len__(self):
+        return len(self.items)
+
+    def __repr__(self):
+        return "%s%s%r" % (self.tag, self.kind, self.items)
+
+
+def parse_obs(s):
+    """`tag{a;b;[x,y]}` -> Node('{', tag, [...]); `[..]` -> Node('[', '', [...]); atoms stay strings"""
+    pos = [0]
+
+    def item(stops):
+        start = pos[0]
+        while pos[0] < len(s) and s[pos[0]] not in "{[" + stops:
+            pos[0] += 1
+        tag = s[start:pos[0]]
+        if pos[0] < len(s) and s[pos[0]] == "{":
+            pos[0] += 1
+            fields = []
+            while True:
+                fields.append(item(";}"))
+                ch = s[pos[0]]
+                pos[0] += 1
+                if ch == "}":
+                    break
+            return Node("{", tag, fields)
+        if pos[0] < len(s) and s[pos[0]] == "[" and tag in ("", "v"):
+            pos[0] += 1
+            items = []
+            if s[pos[0]] == "]":
+                pos[0] += 1
+                return Node("[", tag, items)
+            while True:
+                items.append(item(",]"))
+                ch = s[pos[0]]
+                pos[0] += 1
+                if ch == "]":
+                    break
+            return Node("[", tag, items)
+        return tag
+
+    return item("")
+
+
+def ostr(a):
+    """`s<hex>` -> text, `-` -> None"""
+    if a == "-":
+        return None
+    return C.unhx(a[1:])
+
+
+class Seg:
+    """a segment observation"""
+    def __init__(self, n):
+        self.number = int(n[0]); self.explicit = n[1] == "1"
+        self.keys = n[2].items; self.map = None if n[3] == "-" else n[3]
+        self.byte_range = None if n[4] == "-" else n[4]
+        self.date_range = n[5]; self.disc = n[6] == "1"; self.pdt = n[7]
+        self.duration = int(n[8][0]); self.title = ostr(n[8][1]); self.uri = ostr(n[9])
+        self.node = n
+
+
+class Media:
+    def __init__(self, obs):
+        n = parse_obs(obs)
+        self.target = int(n[0]); self.mseq = int(n[1]); self.dseq = int(n[2]); self.ptype = n[3]
+        self.ifo = n[4] == "1"; self.indep = n[5] == "1"; self.start = n[6]; self.end = n[7] == "1"
+        self.excess = int(n[8]); self.unknown = [ostr(x) for x in n[9].items]
+        self.segments = [Seg(x) for x in n[10].items]
+
+
+def key_ident(k):
+    """(uri, normalised format) of an xkey node, None for the marker"""
+    if k == "K0":
+        return None
+    fmt = k[3]
+    if fmt == "-" or fmt == "kfI":
+        f = "identity"
+    elif fmt.startswith("kfO"):
+        f = "other:" + C.unhx(fmt[4:])
+    else:
+        f = fmt
+    return (ostr(k[1]), f)
+
+
+def brange(n):
+    """`r<start>:<end>` -> (start|None, end)"""
+    a, b = n[1:].split(":")
+    return (None if a == "-" else int(a), int(b))
+
+
+# ------------------------------------------------------------------------------------------
+# C06
+
+C06_FMT = [None, "identity", "f2", "com.apple.streamingkeydelivery"]
+C06_FMT_ID = ["identity", "identity", "other:f2", "kfF"]
+C06_ALPHA = [("K", f, u) for f in range(4) for u in ("a", "b")] + [("N",), ("M",), ("S",)]
+
+
+def c06_render(seq):
+    lines = ["#EXTM3U", "#EXT-X-TARGETDURATION:10"]
+    ns = 0
+    for ev in seq:
+        if ev[0] == "K":
+            l = '#EXT-X-KEY:METHOD=AES-128,URI="%s"' % ev[2]
+            if C06_FMT[ev[1]] is not None:
+                l += ',KEYFORMAT="%s"' % C06_FMT[ev[1]]
+            lines.append(l)
+        elif ev[0] == "N":
+            lines.append("#EXT-X-KEY:METHOD=NONE")
+        elif ev[0] == "M":
+            lines.append('#EXT-X-MAP:URI="init%d"' % ns)
+        else:
+            lines += ["#EXTINF:1,", "s%d" % ns]
+            ns += 1
+    return "\n".join(lines) + "\n"
+
+
+def c06_spec(seq):
+    """RFC 8216 4.3.2.4, written from the property text: returns (accepted, [(segment keys, map keys)])"""
+    cur = {}       # format -> uri ; or the marker
+    marker = False
+    pending_map = None
+    partial = False
+    out = []
+    for ev in seq:
+        if ev[0] == "K":
+            if marker:
+                cur, marker = {}, False
+            cur = dict(cur); cur[C06_FMT_ID[ev[1]]] = ev[2]; partial = True
+        elif ev[0] == "N":
+            cur, marker = {}, True; partial = True
+        elif ev[0] == "M":
+            pending_map = (None if marker else frozenset((u, f) for f, u in cur.items())); partial = True
+            pending_map = ("MARK",) if marker else pending_map
+        else:
+            snap = ("MARK",) if marker else frozenset((u, f) for f, u in cur.items())
+            out.append((snap, pending_map)); pending_map = None; partial = False
+    return (not partial), out
+
+
+def c06_snapshot(keys):
+    ids = [key_ident(k) for k in keys]
+    if ids == [None]:
+        return ("MARK",), True
+    ok = None not in ids and len(set(ids)) == len(ids) and len({i[1] for i in ids}) == len(ids)
+    return frozenset(ids), ok
+
+
+def c06_build(ctx):
+    cases = [c for c in corpus_requests() if c.op in ("media",)]
+    maxlen = ctx.n(4, 5)
+    for n in range(1, maxlen + 1):
+        for seq in itertools.product(C06_ALPHA, repeat=n):
+            cases.append(mk("media", c06_render(seq), group="exhaustive<=%d" % maxlen, meta={"seq": seq}))
+    rng = ctx.rng
+    for _ in range(ctx.n(3000, 60000)):
+        n = rng.randint(maxlen + 1, 60)
+        seq = tuple(rng.choice(C06_ALPHA) if rng.random() < 0.7 else ("S",) for _ in range(n)) + (("S",),)
+        cases.append(mk("media", c06_render(seq), group="random-long", meta={"seq": seq}))
+    for _ in range(ctx.n(500, 5000)):
+        cases.append(mk("media", G.gen_media(rng, key_weight=0.6, features=ctx.features)[0], group="generated"))
+    return cases
+
+
+def c06_check_generic(c, a, fails):
+    """properties of every accepted value, whatever the input: no duplicate format, marker alone, D field"""
+    r = C.Resp(a)
+    m = Media(r.obs)
+    dexp = []
+    for s in m.segments:
+        snap, ok = c06_snapshot(s.keys)
+        if not ok:
+            fails.append(dict(describe(c.line, a), what="a segment reports two keys of one key format, or the marker next to a key", law="one-key-per-format"))
+            return None
+        mk_ = "-"
+        if s.map is not None:
+            _, okm = c06_snapshot(s.map[2].items)
+            if not okm:
+                fails.append(dict(describe(c.line, a), what="a map reports two keys of one key format, or the marker next to a key", law="one-key-per-format"))
+                return None
+            mk_ = "[" + ",".join(str(i) for i, k in enumerate(s.map[2].items) if k != "K0") + "]"
+        dexp.append("[" + ",".join(str(i) for i, k in enumerate(s.keys) if k != "K0") + "]/" + mk_)
+    if r.get("D") != "[" + ",".join(dexp) + "]":
+        fails.append(dict(describe(c.line, a), what="Decryptable::keys() is not the key list without the marker: %s" % r.get("D"), law="decryptable"))
+    return m
+
+
+def c06_oracle(ctx, cases, impl, model):
+    fails = []
+    for c, a in zip(cases, impl):
+        r = C.Resp(a)
+        if r.status == "panic":
+            fails.append(dict(describe(c.line, a), what="media parser panicked")); continue
+        seq = c.meta.get("seq")
+        if seq is None:
+            if r.status == "ok":
+                c06_check_generic(c, a, fails)
+            continue
+        acc, exp = c06_spec(seq)
+        if acc != (r.status == "ok"):
+            fails.append(dict(describe(c.line, a), what="event sequence %s: expected %s, implementation %s" % ("".join(e[0] for e in seq), "accept" if acc else "reject", r.status), law="accept"))
+            continue
+        if not acc:
+            continue
+        m = c06_check_generic(c, a, fails)
+        if m is None:
+            continue
+        got = []
+        for s in m.segments:
+            snap, _ = c06_snapshot(s.keys)
+            ms = None if s.map is None else c06_snapshot(s.map[2].items)[0]
+            got.append((snap, ms))
+        if got != exp:
+            i = next((i for i, (x, y) in enumerate(zip(got, exp)) if x != y), min(len(got), len(exp)))
+            fails.append(dict(describe(c.line, a), what="keys in effect differ from RFC 8216 4.3.2.4 at segment %d: reported %s, specified %s" % (i, got[i:i + 1], exp[i:i + 1]), law="keys-in-effect"))
+    return fails
+
+
+def c06_canon(raw, keys):
+    """status + per segment the SET of keys (order is C11's subject, IV completion C07's) and the map's key set"""
+    r = C.Resp(raw)
+    if r.status != "ok":
+        return r.status
+    try:
+        m = Media(r.obs)
+    except Exception:
+        return raw
+    out = []
+    for s in m.segments:
+        ks = sorted(repr(key_ident(k)) + (k[0] + k[1] if k != "K0" else "") for k in s.keys)
+        mk_ = "-" if s.map is None else ",".join(sorted(repr(key_ident(k)) + (k[0] + k[1] if k != "K0" else "") for k in s.map[2].items))
+        out.append("%s|%s|%s" % (s.uri, ",".join(ks), mk_))
+    return "ok " + ";".join(out)
+
+
+PROPS["C06"] = {
+    "build": c06_build, "gate": {"status"}, "canon": c06_canon, "oracle": c06_oracle,
+    "nontrivial": lambda c, a: a.startswith("ok") and ("#EXT-X-KEY" in c.payload),
+    "rule": "every event sequence over the 11-letter alphabet {key in one of 4 key formats (absent, \"identity\", custom, FairPlay) x 2 payloads, METHOD=NONE, EXT-X-MAP, segment} up to the length bound (quick 4, thorough 5), random sequences up to length 60, generated playlists with a high key rate; non-trivial = accepted text with at least one EXT-X-KEY",
+    "exhaustive": True,
+    "explanation": "theorems: abs_step (one-step refinement of the parser's key-set update against the RFC specification), rel_fold (every line history), keys_in_effect_lines / keys_in_effect (every accepted text: each segment and map reports the specification's snapshot), no_two_keys_same_format, decryptable_abs; oracle: independent Python simulation of RFC 8216 4.3.2.4 per event sequence compared with the implementation's per-segment and per-map key sets",
+    "assumptions": ["exhaustive = all sequences up to the stated length over the stated alphabet (not all texts)"],
 }
